@@ -2,6 +2,7 @@
 import itertools
 from props.common import *
 from props.c02 import ilog2
+import props.c08 as c08
 
 FUNCS = ['RangeProof::verify_batch', 'RangeProof::verify', 'RangeProof::verify_statements_and_generators_consistency', 'RangeProof::prove_with_rng',
          'RangeProof::from_bytes', 'ExtendedMask::assign', 'utils::generic::{nonce,compute_generator_padding}']
@@ -36,12 +37,18 @@ def cases(tier):
     # (b) every member is examined, also beyond any chunk limit: adversarial members with their own free points
     sizes = [2, 5, 257] if tier == 'quick' else [2, 5, 255, 256, 257, 300, 511, 512, 513]
     for k in sizes:
-        cfg = {'scenario': 'adversarial', 'n': 2, 'x': 1, 'members': [{'m': 1, 'cap': 1, 'rounds': 1} for _ in range(k)], 'actions': ['VerifyOnly']}
+        cfg = {'scenario': 'adversarial', 'n': 2, 'x': 1, 'members': [{'m': 1, 'cap': 1, 'rounds': 1} for _ in range(k)], 'actions': ['VerifyOnly'],
+               'forced': [['final_eq', 0, True]]}
         out.append({'cfg': cfg, 'kind': 'examined', 'name': 'every member examined, k=%d' % k})
     # honest big batch: exactly k results
     for k in ([257] if tier == 'quick' else [256, 257, 513]):
         cfg = {'scenario': 'batch', 'n': 2, 'x': 1, 'members': [{'m': 1, 'cap': 1, 'seeded': (i % 64 == 0)} for i in range(k)], 'actions': ['RecoverAndVerify']}
         out.append({'cfg': cfg, 'kind': 'count', 'name': 'honest batch of %d returns %d results' % (k, k)})
+    # (c') iff: the batch equation is sum_i w_i * (relation of member i) with distinct non-zero weights, so it vanishes identically iff every
+    # member's relation does; equal-and-opposite defects in two members do not cancel (shared with C08)
+    for c in c08.cases(tier):
+        if c['kind'] == 'cancel' or c['name'].startswith('k=3') or c['name'].startswith('k=2 n8'):
+            out.append(dict(c, kind='c08:' + c['kind']))
     # (d) refused shapes
     two = [honest_member(0, kinds[1]), honest_member(1, kinds[2])]
     for key in ('drop_last_statement', 'drop_last_proof', 'drop_last_transcript'):
@@ -73,6 +80,8 @@ def mask_expectation(run, cfg, action):
 def analyse(ctx, case, run, S):
     cfg = case['cfg']
     kind = case['kind']
+    if kind.startswith('c08:'):
+        return c08.analyse(ctx, dict(case, kind=kind[4:]), run, S)
     if kind in ('honest', 'count'):
         if not ctx.expect(all(p['result'] == 'ok' for p in run.out['prove']) and run.out['verify'], 'C03:prove', 'honest prover failed (%s)' % case['name'], cfg, 'honest_rejected'):
             return
